@@ -73,10 +73,15 @@ class _Model:
     """Tiny nnx module saved by the real checkpointer."""
 
 
-def make_module():
+def make_module(kind=0):
+    """kind 0: parameters only; kind 1: a policy head that also carries non-Param variables (action scale / bias)"""
+    import gymnasium as gym
     from flax import nnx
     from rl_blox.blox.function_approximator.mlp import MLP
-    return MLP(2, 1, [3], "relu", nnx.Rngs(0))
+    from rl_blox.blox.function_approximator.policy_head import DeterministicTanhPolicy
+    if kind % 2 == 0:
+        return MLP(2, 1, [3], "relu", nnx.Rngs(0))
+    return DeterministicTanhPolicy(MLP(2, 2, [3], "relu", nnx.Rngs(1)), gym.spaces.Box(np.array([-1.0, 0.5], dtype=np.float32), np.array([2.0, 0.75], dtype=np.float32)))
 
 
 def run_memory_like(cls_factory, ops, standard):
@@ -206,8 +211,9 @@ def main(chk):
     cases = corner + cases
     results = chk.model_eval([model_exprs(ops) for ops, _ in cases])
     ckdir = f"{chk.rundir}/ckpt"
-    module = make_module()
+    modules = [make_module(0), make_module(1)]
     for ci, ((ops, monotone), res) in enumerate(zip(cases, results)):
+        module = modules[ci % 2]      # every second case records a module that also carries non-Param variables
         m_mem, m_std, spec, m_ck, m_list = res
         kinds = sorted({o[0] for o in ops})
         chk.case((len(ops), tuple(kinds), hash(str(ops))), nontrivial=len(ops) >= 3)
